@@ -646,12 +646,12 @@ FIXED = {
 def population(ctx):
     rng = ctx.rng
     q = ctx.quick()
-    plan = {"eq": (800, 1700, 500), "dir": (350, 900, 600), "rt": (250, 500, 600), "st": (200, 450, 500), "lv": (250, 550, 600)}
+    plan = {"eq": (600, 1300, 400), "dir": (300, 700, 500), "rt": (200, 400, 500), "st": (150, 350, 400), "lv": (200, 450, 500)}
     cases = []
     for g in GRAMMARS:
         ngen, nnear, nenum = plan[g]
         if not q:
-            ngen, nnear, nenum = ngen * 8, nnear * 8, None if g != "eq" else 60000
+            ngen, nnear, nenum = ngen * 8, nnear * 8, None if g != "eq" else 30000
         gens = [gen_case(g, rng) for _ in range(ngen)]
         cases.extend(gens)
         for _ in range(nnear):
@@ -694,7 +694,7 @@ def model_run_strings(tag, g, strs):
     return vlib.coq_eval_lines(tag, IMPORTS, "", ["(run_%s %s)" % (g, cp(s)) for s in strs], shard=400)
 
 
-def shrink(g, s, rounds=16):
+def shrink(g, s, rounds=10):
     """Delta debugging on the characters, keeping a code-vs-model disagreement (one coqc call per round:
     all candidates of one granularity are evaluated together)."""
     n = 2
@@ -813,6 +813,8 @@ def routes(ctx, gens):
     for _ in range(n):
         # Einsum section
         cs_ = rng.sample(by["eq"], rng.randint(1, 4))
+        if rng.random() < 0.3:
+            cs_.insert(rng.randrange(len(cs_) + 1), rng.choice(cs_))    # the same Einsum written twice
         exp = [c["view"] for c in cs_]
         try:
             got = route_einsum([c["s"] for c in cs_])
@@ -832,6 +834,8 @@ def routes(ctx, gens):
                     continue
                 seenv.add(c["view"])
                 ds = rng.sample(by["dir"], rng.randint(1, 3))
+                if rng.random() < 0.3:
+                    ds.insert(rng.randrange(len(ds) + 1), rng.choice(ds))    # a repeated directive stays repeated
                 rows.append((c, ds))
             part.append((t, [(c["s"], [d["s"] for d in ds]) for c, ds in rows]))
             exp_p.append((t, [(c["view"], [d["view"] for d in ds]) for c, ds in rows]))
@@ -839,6 +843,8 @@ def routes(ctx, gens):
         for t in ["Z", "T"][:rng.randint(1, 2)]:
             sp = rng.sample(by["st"], rng.randint(0, 3))
             tm = rng.sample(by["st"], rng.randint(0, 3))
+            if sp and rng.random() < 0.3:
+                tm.append(rng.choice(sp))
             st.append((t, [c["s"] for c in sp], [c["s"] for c in tm]))
             exp_s.append((t, [c["view"] for c in sp], [c["view"] for c in tm]))
         # rows with the same rank-tuple STRING would collapse in the YAML dict itself
